@@ -2,6 +2,7 @@ package lib
 
 import (
 	"math/rand"
+	"os"
 	"reflect"
 	"testing"
 
@@ -120,6 +121,32 @@ func TestVariantsDenoteTheSameGraph(t *testing.T) {
 			if err != nil || got != want {
 				t.Fatalf("variant %v does not denote the same graph (%v):\n%s", applied, err, text)
 			}
+		}
+	}
+}
+
+func TestContextByReferenceDenotesTheSameGraph(t *testing.T) {
+	g := NewGraph()
+	a := g.AddNode(EX+"a", EX+"T", EX+"U")
+	a.Add(EX+"name", StrV("x"), IntV(3), BoolV(false))
+	a.Add(EX+"c", RefV(EX+"b"))
+	g.AddNode(EX+"b", EX+"T").Add(EX+"deep/er", StrV("y"))
+	want, err := FlattenCanon(g.CanonicalJSONLD())
+	if err != nil {
+		t.Fatal(err)
+	}
+	dir := t.TempDir()
+	for _, mode := range []string{"reference", "import"} {
+		doc, ctx := g.ContextByReference(dir+"/ctx.jsonld", mode)
+		if err := os.WriteFile(dir+"/ctx.jsonld", []byte(ctx), 0o644); err != nil {
+			t.Fatal(err)
+		}
+		got, err := FlattenCanon(doc)
+		if err != nil {
+			t.Fatalf("%s: %v\n%s", mode, err, doc)
+		}
+		if got != want {
+			t.Fatalf("%s: different graph\n%s\n%s", mode, got, want)
 		}
 	}
 }
